@@ -47,6 +47,7 @@ pub fn market_outcome(id: &'static str, case: &MarketCase) -> Outcome {
                     ("market_offgrid_creates", f.offgrid_create),
                     ("market_toggles", f.toggles),
                     ("market_ops_through_get_order_book_mut", f.direct_ops),
+                    ("market_ops_after_which_no_market_data_getter_was_called", f.quiet_ops),
                 ],
                 result: res.err(),
             }
@@ -227,7 +228,7 @@ pub fn parts(id: &'static str, tier: Tier) -> Option<(Vec<Part<Case>>, String)> 
                             ops.push((a, Op::CreatePlace { bid: false, vol: 6, trader: 77, price: None }));
                             ops.push((a, Op::CreatePlace { bid: true, vol: 6, trader: 77, price: None }));
                         }
-                        Some(Case::Market(MarketCase { ticks: vec![2, 2], levels: 3, trading: true, t0: 0, ops, zero_vols: false, direct_ops: false }))
+                        Some(Case::Market(MarketCase { ticks: vec![2, 2], levels: 3, trading: true, t0: 0, ops, zero_vols: false, direct_ops: false, quiet: 0 }))
                     }),
                     description: format!("every sequence of exactly {} operations on Market<2,3>, each = (asset 0 or 1) x (the 16 core create-and-place ops of C01 or cancel of local id 0..2), clock advanced before every op, then market orders draining both assets; both assets share local ids by construction", depth),
                 },
